@@ -294,28 +294,78 @@ theorem callDiags_noError_iff (path : String) (s : Schema) (r : Rule) (fn : Stri
 /-- `attr` is an attribute of `e` or of one of its supertypes (found by `ENTITYget_named_attribute` within `fuel` levels) -/
 def AttrVisible (s : Schema) (fuel : Nat) (e : Entity) (an : String) : Prop := namedAttr s an fuel e.name = some true
 
-theorem ruleItem_noError_iff (path : String) (s : Schema) (fuel : Nat) (e : Entity) (r : Rule) (it : RuleItem) :
-    hasError (ruleItemDiags path s fuel e r it) = false ↔
-      match it with
-      | .call fn _ => CallWF s fn
-      | .selfAttr an => AttrVisible s fuel e an
-      | .bareAttr an => AttrVisible s fuel e an
-      | .badGroup _ => False
-      | .smallReal _ => True := by
+/-- the schema scope knows the name: a declaration of the schema (of any kind) or an imported object -/
+def GlobalVisible (env : Env) (s : Schema) (n : String) : Prop :=
+  (findFunc s n).isSome = true ∨ (ownObj s n).isSome = true ∨ (env.foreign n).isSome = true
+
+theorem missingSelf_noError_iff (p : String) (r : Rule) : hasError (missingSelf p r) = false ↔ r.isWhere = false := by
+  simp only [missingSelf]
+  cases r.isWhere with
+  | true => simp only [if_true, reduceCtorEq, iff_false, Bool.not_eq_false]; errsimp
+  | false => simp [hasError_nil]
+
+theorem globalRef_isSome_iff (p : String) (env : Env) (s : Schema) (r : Rule) (n : String) :
+    (globalRef p env s r n).isSome = true ↔ GlobalVisible env s n := by
+  simp only [globalRef, GlobalVisible]
+  cases findFunc s n with
+  | some fd => simp
+  | none =>
+    cases h1 : (ownObj s n).isSome <;> cases h2 : (env.foreign n).isSome <;> simp
+
+theorem globalRef_noError (p : String) (env : Env) (s : Schema) (r : Rule) (n : String) (ds : List Diag)
+    (h : globalRef p env s r n = some ds) : hasError ds = false := by
+  simp only [globalRef] at h
+  split at h
+  · simp only [Option.some.injEq] at h; subst h
+    split
+    · rfl
+    · errsimp
+  · split at h
+    · simp only [Option.some.injEq] at h; subst h; rfl
+    · simp at h
+
+/-- what one item of an expression of entity `e` must satisfy: a call names a function; `SELF.a` names a visible attribute; a
+    bare identifier names a visible attribute or — outside domain rules, which must refer to SELF or an attribute — something
+    the schema scope knows; no group reference on a non-entity -/
+def RuleItemWF (env : Env) (s : Schema) (fuel : Nat) (e : Entity) (r : Rule) : RuleItem → Prop
+  | .call fn _ => CallWF s fn
+  | .selfAttr an => AttrVisible s fuel e an
+  | .bareAttr an => AttrVisible s fuel e an ∨ (r.isWhere = false ∧ GlobalVisible env s an)
+  | .badGroup _ => False
+  | .smallReal _ => True
+
+theorem ruleItem_noError_iff (path : String) (env : Env) (s : Schema) (fuel : Nat) (e : Entity) (r : Rule) (it : RuleItem) :
+    hasError (ruleItemDiags path env s fuel e r it) = false ↔ RuleItemWF env s fuel e r it := by
   cases it with
   | call fn argc => exact callDiags_noError_iff path s r fn argc
   | selfAttr an =>
-    simp only [ruleItemDiags, AttrVisible]
+    simp only [ruleItemDiags, RuleItemWF, AttrVisible]
     cases h : namedAttr s an fuel e.name with
     | none => errsimp
     | some b => cases b <;> errsimp
   | bareAttr an =>
-    simp only [ruleItemDiags, AttrVisible]
+    have other : namedAttr s an fuel e.name ≠ some true →
+        (hasError (bareOutside path env s r an) = false ↔
+         (r.isWhere = false ∧ GlobalVisible env s an)) := by
+      intro _
+      rw [← globalRef_isSome_iff path env s r an]
+      simp only [bareOutside]
+      cases hg : globalRef path env s r an with
+      | some ds =>
+        simp only [hasError_append, Bool.or_eq_false_iff, globalRef_noError path env s r an ds hg, true_and,
+          missingSelf_noError_iff, Option.isSome_some, and_true]
+      | none =>
+        simp only [Option.isSome_none, Bool.false_eq_true, and_false, iff_false, Bool.not_eq_false]
+        errsimp
+    simp only [ruleItemDiags, RuleItemWF, AttrVisible]
     cases h : namedAttr s an fuel e.name with
-    | none => errsimp
-    | some b => cases b <;> errsimp
-  | badGroup an => simp only [ruleItemDiags, iff_false]; errsimp
-  | smallReal t => simp [ruleItemDiags, hasError]
+    | none => simpa using other (by simp [h])
+    | some b =>
+      cases b with
+      | true => simp [hasError_nil]
+      | false => simpa using other (by simp [h])
+  | badGroup an => simp only [ruleItemDiags, RuleItemWF, iff_false]; errsimp
+  | smallReal t => simp [ruleItemDiags, RuleItemWF, hasError]
 
 /-! ### bad INVERSE -/
 
@@ -582,25 +632,19 @@ theorem redecl_noError_iff (path : String) (s : Schema) (fuel : Nat) (e : Entity
       | some se => simp [h3 se hse, hasError_nil]
 
 /-- the rules of `e`: every call names a function, every attribute reference is visible, no group reference on a non-entity -/
-def RulesWF (s : Schema) (fuel : Nat) (e : Entity) : Prop :=
-  ∀ r ∈ e.rules, ∀ it ∈ r.items,
-    match it with
-    | .call fn _ => CallWF s fn
-    | .selfAttr an => AttrVisible s fuel e an
-    | .bareAttr an => AttrVisible s fuel e an
-    | .badGroup _ => False
-    | .smallReal _ => True
+def RulesWF (env : Env) (s : Schema) (fuel : Nat) (e : Entity) : Prop :=
+  ∀ r ∈ e.rules, ∀ it ∈ r.items, RuleItemWF env s fuel e r it
 
 /-- **`ENTITYresolve_expressions` reports no ERROR for `e` ⇔ no inherited attribute is declared again, every redeclaration names
     an ancestor that declares the attribute, and every domain rule is well formed** -/
-theorem entityPass5_noError_iff (path : String) (s : Schema) (fuel : Nat) (e : Entity) :
-    hasError (entityPass5 path s fuel e) = false ↔ NoOverload s fuel e ∧ RedeclWF s fuel e ∧ RulesWF s fuel e := by
+theorem entityPass5_noError_iff (path : String) (env : Env) (s : Schema) (fuel : Nat) (e : Entity) :
+    hasError (entityPass5 path env s fuel e) = false ↔ NoOverload s fuel e ∧ RedeclWF s fuel e ∧ RulesWF env s fuel e := by
   simp only [entityPass5, hasError_append, Bool.or_eq_false_iff, overload_noError_iff, redecl_noError_iff, and_assoc]
   refine and_congr Iff.rfl (and_congr Iff.rfl ?_)
   simp only [ruleDiags, hasError_flatMap_false, RulesWF]
   constructor
-  · intro h r hr it hit; exact (ruleItem_noError_iff path s fuel e r it).mp (h r hr it hit)
-  · intro h r hr it hit; exact (ruleItem_noError_iff path s fuel e r it).mpr (h r hr it hit)
+  · intro h r hr it hit; exact (ruleItem_noError_iff path env s fuel e r it).mp (h r hr it hit)
+  · intro h r hr it hit; exact (ruleItem_noError_iff path env s fuel e r it).mpr (h r hr it hit)
 
 /-! ### type declarations (pass 3) -/
 
@@ -789,7 +833,7 @@ def EntityWF (env : Env) (s : Schema) (e : Entity) : Prop :=
    (∀ a ∈ e.attrs, TypeRefWF env s a.ty ∧ InverseWF s (fun en an => namedAttr s an fuel en = some true) a) ∧
    (∀ u ∈ e.uniques, UniqueWF s fuel e u) ∧
    ¬ Reach (subGraph s) e.name e.name) ∧
-  (NoOverload s fuel e ∧ RedeclWF s fuel e ∧ RulesWF s fuel e)
+  (NoOverload s fuel e ∧ RedeclWF s fuel e ∧ RulesWF env s fuel e)
 
 theorem entityPass4_noError_iff (p : String) (env : Env) (s : Schema) (e : Entity)
     (hlim : ∀ k, ResolveGen.subsuperDepthLimit = some k → s.decls.length < k) :
@@ -804,7 +848,7 @@ theorem entityPass4_noError_iff (p : String) (env : Env) (s : Schema) (e : Entit
 theorem entity_noError_iff (p : String) (env : Env) (s : Schema) (e : Entity)
     (hlim : ∀ k, ResolveGen.subsuperDepthLimit = some k → s.decls.length < k) :
     (hasError (superSubDiags p env s e) = false ∧ hasError (entityPass4 p env s e) = false ∧
-      hasError (entityPass5 p s (s.decls.length + 1) e) = false) ↔ EntityWF env s e := by
+      hasError (entityPass5 p env s (s.decls.length + 1) e) = false) ↔ EntityWF env s e := by
   simp only [EntityWF, superSub_noError_iff, entityPass4_noError_iff p env s e hlim, entityPass5_noError_iff]
 
 /-- the WHERE rules of the type declarations: every call names a function -/
@@ -822,6 +866,63 @@ theorem typeRules_noError_iff (p : String) (s : Schema) : hasError (typeRuleDiag
   | badGroup _ => simp [hasError_nil]
   | smallReal _ => simp [hasError_nil]
 
+/-- the expressions of FUNCTION / RULE / CONSTANT `f`: every call names a function, every bare identifier is a parameter / local
+    of `f` or something the schema scope knows -/
+def AlgWF (env : Env) (s : Schema) (f : Func) : Prop :=
+  ∀ r ∈ f.body, ∀ it ∈ r.items,
+    match it with
+    | .call fn _ => CallWF s fn
+    | .bareAttr n => n ∈ f.locals ∨ GlobalVisible env s n
+    | _ => True
+
+theorem alg_noError_iff (p : String) (env : Env) (s : Schema) :
+    hasError (algDiags p env s) = false ↔ ∀ f, Decl.func f ∈ s.decls → AlgWF env s f := by
+  simp only [algDiags, hasError_flatMap_false]
+  constructor
+  · intro h f hf r hr it hit
+    have := h (.func f) hf
+    simp only [hasError_flatMap_false] at this
+    have := this r hr it hit
+    cases it with
+    | call fn argc => exact (callDiags_noError_iff p s _ fn argc).mp this
+    | bareAttr n =>
+      simp only [algItemDiags] at this
+      by_cases hl : n ∈ f.locals
+      · exact Or.inl hl
+      · right
+        rw [← globalRef_isSome_iff p env s r n]
+        simp only [hl, if_false] at this
+        cases hg : globalRef p env s r n with
+        | some ds => rfl
+        | none => rw [hg] at this; exfalso; revert this; errsimp
+    | selfAttr _ => trivial
+    | badGroup _ => trivial
+    | smallReal _ => trivial
+  · intro h d hd
+    cases d with
+    | func f =>
+      simp only [hasError_flatMap_false]
+      intro r hr it hit
+      have := h f hd r hr it hit
+      cases it with
+      | call fn argc => exact (callDiags_noError_iff p s _ fn argc).mpr this
+      | bareAttr n =>
+        simp only [algItemDiags]
+        by_cases hl : n ∈ f.locals
+        · simp [hl, hasError_nil]
+        · simp only [hl, if_false]
+          have hv : GlobalVisible env s n := by rcases this with h | h; exact absurd h hl; exact h
+          rw [← globalRef_isSome_iff p env s r n] at hv
+          cases hg : globalRef p env s r n with
+          | some ds => exact globalRef_noError p env s r n ds hg
+          | none => rw [hg] at hv; simp at hv
+      | selfAttr _ => rfl
+      | badGroup _ => rfl
+      | smallReal _ => rfl
+    | entity e => rfl
+    | type t => rfl
+    | syntaxError a b c => rfl
+
 /-- well-formedness of one declaration as far as passes 3 and 4 look -/
 def DeclWF34 (env : Env) (s : Schema) : Decl → Prop
   | .entity e =>
@@ -838,7 +939,9 @@ def DeclWF34 (env : Env) (s : Schema) : Decl → Prop
     attribute, redeclarations name a declaring ancestor, domain rules refer to functions and visible attributes -/
 def SchemaWF (env : Env) (s : Schema) : Prop :=
   (∀ d ∈ s.decls, DeclWF34 env s d) ∧ TypeRulesWF s ∧
-  (∀ e ∈ s.entities, NoOverload s (s.decls.length + 1) e ∧ RedeclWF s (s.decls.length + 1) e ∧ RulesWF s (s.decls.length + 1) e)
+  (∀ e ∈ s.entities, NoOverload s (s.decls.length + 1) e ∧ RedeclWF s (s.decls.length + 1) e ∧
+    RulesWF env s (s.decls.length + 1) e) ∧
+  (∀ f, Decl.func f ∈ s.decls → AlgWF env s f)
 
 theorem selectCycle_nonselect (p : String) (s : Schema) (t : TypeDecl) (h : ∀ items, t.body ≠ .select items) :
     selectCycleDiags p s t = [] := by
@@ -851,8 +954,8 @@ theorem selectCycle_nonselect (p : String) (s : Schema) (t : TypeDecl) (h : ∀ 
     declarations, for every environment of imported names, below the recursion-depth guard -/
 theorem schema_noError_iff (p : String) (env : Env) (s : Schema)
     (hlim : ∀ k, ResolveGen.subsuperDepthLimit = some k → s.decls.length < k) :
-    hasError (pass3 p env s ++ pass4 p env s ++ (pass5 p s).diags) = false ↔ SchemaWF env s := by
-  simp only [hasError_append, Bool.or_eq_false_iff, SchemaWF, pass5, typeRules_noError_iff, and_assoc]
+    hasError (pass3 p env s ++ pass4 p env s ++ (pass5 p env s).diags) = false ↔ SchemaWF env s := by
+  simp only [hasError_append, Bool.or_eq_false_iff, SchemaWF, pass5, typeRules_noError_iff, alg_noError_iff, and_assoc]
   have h34 : (hasError (pass3 p env s) = false ∧ hasError (pass4 p env s) = false) ↔ ∀ d ∈ s.decls, DeclWF34 env s d := by
     simp only [pass3, pass4, hasError_flatMap_false]
     constructor
@@ -890,14 +993,14 @@ theorem schema_noError_iff (p : String) (env : Env) (s : Schema)
         | func f => rfl
         | syntaxError a b c => rfl
   constructor
-  · rintro ⟨h3, h4, ht, h5⟩
-    refine ⟨h34.mp ⟨h3, h4⟩, ht, ?_⟩
+  · rintro ⟨h3, h4, ht, h5, ha⟩
+    refine ⟨h34.mp ⟨h3, h4⟩, ht, ?_, ha⟩
     intro e he
-    exact (entityPass5_noError_iff p s _ e).mp ((hasError_flatMap_false _ _).mp h5 e he)
-  · rintro ⟨hd, ht, h5⟩
+    exact (entityPass5_noError_iff p env s _ e).mp ((hasError_flatMap_false _ _).mp h5 e he)
+  · rintro ⟨hd, ht, h5, ha⟩
     obtain ⟨h3, h4⟩ := h34.mpr hd
-    refine ⟨h3, h4, ht, ?_⟩
-    exact (hasError_flatMap_false _ _).mpr (fun e he => (entityPass5_noError_iff p s _ e).mpr (h5 e he))
+    refine ⟨h3, h4, ht, ?_, ha⟩
+    exact (hasError_flatMap_false _ _).mpr (fun e he => (entityPass5_noError_iff p env s _ e).mpr (h5 e he))
 
 /-! ### the parse phase -/
 
